@@ -50,6 +50,9 @@ for p in props:
         out = rr.stdout
         caught = "VIOLATION property=%s" % p in out
         mons = sorted({l.split("monitor=")[1].split(" ")[0] for l in out.splitlines() if l.strip().startswith("monitor=")})
+        for l in out.splitlines():
+            if l.strip().startswith("fired monitors:"):
+                mons = sorted(x.rsplit(" x", 1)[0] for x in l.split(":", 1)[1].strip().split(", "))
         verdict = [l for l in out.splitlines() if "verdict=" in l]
         meta["ran"].append({"check": p, "tier": tier, "exit": rr.returncode, "caught": caught, "monitors_fired": mons,
                             "summary": verdict[-1] if verdict else out[-300:], "wall_s": round(time.time() - t, 1)})
